@@ -128,8 +128,15 @@ structure ClaimCtx where
   selector : Selector
   /-- target of a child object -/
   childT : J → Target
-  /-- verb + gone-reason used by the read-modify-write of this kind of child -/
+  /-- gone-reason used by the read-modify-write of this kind of child -/
   goneReason : String := "NotFound"
+  /-- typed objects drop an empty ownerReferences list when marshalled (`omitempty`) -/
+  typed : Bool := false
+  /-- the typed client refuses every named request with an empty namespace, before sending anything -/
+  clientRefuses : Bool := false
+
+def ClaimCtx.setRefs (cx : ClaimCtx) (o : J) (refs : List OwnerRef) : J :=
+  if cx.typed && refs.isEmpty then removeNestedField o ["metadata", "ownerReferences"] else setOwnerRefs o refs
 
 /-- claim one object: returns (claimed?, error?) -/
 def claimOne (cx : ClaimCtx) (obj : J) (st : AdoptState) : Prog ((Bool × Option String) × AdoptState) :=
@@ -137,8 +144,9 @@ def claimOne (cx : ClaimCtx) (obj : J) (st : AdoptState) : Prog ((Bool × Option
   | .ignore => pure ((false, none), st)
   | .keep => pure ((true, none), st)
   | .release => do
-      let r ← atomicLoop (cx.childT obj) (getUID obj)
-                (fun cur => some (setOwnerRefs cur (removeOwnerReference (getOwnerRefs cur) (getUID cx.parent))))
+      let r ← if cx.clientRefuses then pure (.error "an empty namespace may not be set when a resource name is provided") else
+              atomicLoop (cx.childT obj) (getUID obj)
+                (fun cur => some (cx.setRefs cur (removeOwnerReference (getOwnerRefs cur) (getUID cx.parent))))
                 .update cx.goneReason retrySteps
       match r with
       | .ok _ => pure ((false, none), st)
@@ -149,8 +157,9 @@ def claimOne (cx : ClaimCtx) (obj : J) (st : AdoptState) : Prog ((Bool × Option
       match ok with
       | .error e => pure ((false, some s!"can't adopt: {e}"), st')
       | .ok () =>
-        let r ← atomicLoop (cx.childT obj) (getUID obj)
-                  (fun cur => some (setOwnerRefs cur (addOwnerReference (getOwnerRefs cur) cx.parentRef)))
+        let r ← if cx.clientRefuses then pure (.error "an empty namespace may not be set when a resource name is provided") else
+                atomicLoop (cx.childT obj) (getUID obj)
+                  (fun cur => some (cx.setRefs cur (addOwnerReference (getOwnerRefs cur) cx.parentRef)))
                   .update cx.goneReason retrySteps
         match r with
         | .ok _ => pure ((true, none), st')
